@@ -11,7 +11,9 @@ use std::collections::{BTreeMap, BTreeSet, HashSet};
 use std::panic::{catch_unwind, AssertUnwindSafe};
 use std::time::Instant;
 
-pub const VERIF_DIR: &str = "/verif";
+pub fn verif_dir() -> String {
+    std::env::var("VERIF_ROOT").unwrap_or_else(|_| "/verif".to_string())
+}
 
 #[cfg(feature = "f32")]
 pub const IS_F32: bool = true;
@@ -287,7 +289,7 @@ pub struct KnownFinding {
 }
 
 pub fn load_known_findings(property: &str) -> Vec<KnownFinding> {
-    let path = format!("{}/known_findings.txt", VERIF_DIR);
+    let path = format!("{}/known_findings.txt", verif_dir());
     let text = std::fs::read_to_string(&path).unwrap_or_default();
     let mut out = Vec::new();
     for line in text.lines() {
@@ -315,7 +317,7 @@ pub fn load_known_findings(property: &str) -> Vec<KnownFinding> {
         }
         let mut cases = BTreeSet::new();
         if !cases_file.is_empty() {
-            let p = format!("{}/{}", VERIF_DIR, cases_file);
+            let p = format!("{}/{}", verif_dir(), cases_file);
             let t = std::fs::read_to_string(&p)
                 .unwrap_or_else(|e| machinery_error(&format!("cannot read {}: {}", p, e)));
             for l in t.lines() {
@@ -399,7 +401,7 @@ impl Finish {
         // replay artefacts for new violations (distinct cases, capped)
         let mut printed = 0usize;
         let mut seen_cases = BTreeSet::new();
-        let replay_dir = format!("{}/replays", VERIF_DIR);
+        let replay_dir = format!("{}/replays", verif_dir());
         let mut first_paths = Vec::new();
         new_violations.sort_by(|a, b| (a.case.len(), &a.sub, &a.case).cmp(&(b.case.len(), &b.sub, &b.case)));
         for v in &new_violations {
@@ -486,7 +488,7 @@ impl Finish {
             "violating_executions": self.total.violation_count,
         });
         if self.opts.only.is_none() {
-            let dir = format!("{}/evidence", VERIF_DIR);
+            let dir = format!("{}/evidence", verif_dir());
             let _ = std::fs::create_dir_all(&dir);
             let path = format!("{}/{}.json", dir, id);
             std::fs::write(&path, serde_json::to_string_pretty(&ev).unwrap())
